@@ -418,6 +418,16 @@ def check_transfer(chk, m, fn):
         fits = kind == "fits"
         if fits:
             n_fit += 1
+        # a pack operation only reads what the caller hands it: a write through a pointer ARGUMENT of rf_pack_* (the source
+        # array) modifies the caller's data
+        if name.startswith("rf_pack_"):
+            wr = [e for e in p.events if e.kind in ("store", "memcpy", "memset") and e.ptr is not None and
+                  ptr_parts(e.ptr)[0][0] == "arg" and ptr_parts(e.ptr)[0] != ("arg", 0)]
+            if wr or name == "rf_pack_bytes":
+                chk.ob("P3.source-read-only", pathid, not wr,
+                       "packing does not write through the source pointer" if not wr else
+                       "%s through the caller's source pointer at %s: packing (here: %s) overwrites the data it was asked to pack"
+                       % (wr[0].kind, wr[0].inst.loc, "an item that fits" if fits else "an item that does not fit"), (wr[0].inst.loc if wr else ginst.loc), name)
         # P3 accesses
         if not fits:
             chk.ob("P3.no-access-on-overflow", pathid, not acc and not src_acc,
